@@ -60,6 +60,10 @@ def run_tv(ctx, n_tables, max_len=800):
         metas.append({'list': '2-D 2x3'})
         recs.append(tt.record_flatten([[dfs[k]], [dfs[k + 1]], [dfs[k + 2]]], [7, 8, 9], True))
         metas.append({'list': '2-D 3x1'})
+        recs.append(tt.record_flatten([dfs[k]], [4], False))
+        metas.append({'list': '1-D of 1'})
+        recs.append(tt.record_flatten([[dfs[k + 1]]], [6], True))
+        metas.append({'list': '2-D 1x1'})
         empty = dfs[k + 1].iloc[0:0]
         recs.append(tt.record_flatten([dfs[k], empty, dfs[k + 2], empty, dfs[k + 1]], [3, 4, 5, 6, 7], False))
         metas.append({'list': '1-D of 5 with two empty tables (epochs without cycles)'})
